@@ -6,6 +6,7 @@
 #include <future>
 #include <mutex>
 #include <nano/arch.h>
+#include <nano/verif.h>
 #include <thread>
 #include <vector>
 
@@ -33,11 +34,15 @@ public:
     {
         auto task   = task_t(std::forward<tfunction>(f));
         auto future = task.get_future();
+        NANO_VERIF_SCHED(1);
         {
             const std::scoped_lock lock(m_mutex);
             m_tasks.emplace_back(std::move(task));
+            NANO_VERIF_EVENT(::nano::verif::ev_push_one, this);
         }
+        NANO_VERIF_SCHED(2);
         m_condition.notify_one();
+        NANO_VERIF_EVENT(::nano::verif::ev_notify_one, this);
         return future;
     }
 
@@ -181,6 +186,7 @@ public:
     {
         if (size() == 1 || elements <= 1)
         {
+            NANO_VERIF_EVENT(::nano::verif::ev_map_inline, &m_queue, static_cast<std::uint64_t>(elements));
             for (tsize index = 0; index < elements; ++index)
             {
                 op(index, 0U);
@@ -196,11 +202,15 @@ public:
                 {
                     section.emplace_back(m_queue.enqueue_no_lock([op, index](const size_t tnum) { op(index, tnum); }));
                 }
+                NANO_VERIF_EVENT(::nano::verif::ev_push_all, &m_queue, static_cast<std::uint64_t>(section.size()));
             }
+            NANO_VERIF_SCHED(3);
             m_queue.m_condition.notify_all();
+            NANO_VERIF_EVENT(::nano::verif::ev_notify_all, &m_queue);
 
             section.block(raise);
         }
+        NANO_VERIF_EVENT(::nano::verif::ev_map_end, &m_queue);
     }
 
     ///
@@ -217,6 +227,8 @@ public:
 
         if (size() == 1 || chunksize >= elements)
         {
+            NANO_VERIF_EVENT(::nano::verif::ev_map_inline, &m_queue,
+                             static_cast<std::uint64_t>((elements + chunksize - 1) / chunksize));
             for (tsize begin = 0; begin < elements; begin += chunksize)
             {
                 op(begin, std::min(begin + chunksize, elements), 0U);
@@ -234,11 +246,15 @@ public:
                     section.emplace_back(
                         m_queue.enqueue_no_lock([op, begin, end](const size_t tnum) { op(begin, end, tnum); }));
                 }
+                NANO_VERIF_EVENT(::nano::verif::ev_push_all, &m_queue, static_cast<std::uint64_t>(section.size()));
             }
+            NANO_VERIF_SCHED(3);
             m_queue.m_condition.notify_all();
+            NANO_VERIF_EVENT(::nano::verif::ev_notify_all, &m_queue);
 
             section.block(raise);
         }
+        NANO_VERIF_EVENT(::nano::verif::ev_map_end, &m_queue);
     }
 
 private:
